@@ -151,8 +151,41 @@ pub fn mutants(base_name: &str) -> Vec<Mutant> {
     q.files.push(("second.circom".into(), Some(b"pragma circom 2.1.4;\ntemplate Other() {\n    signal input in;\n    signal output out;\n    out <== in;\n}\ncomponent main = Other();\n".to_vec())));
     q.named.push("second.circom".into());
     push("multiple-main", 0, q, true);
+    // A second main component in a file that is only included.
+    if base_name != "single" {
+        let mut q = p.clone();
+        let lib = String::from_utf8(q.files[1].1.clone().unwrap()).unwrap();
+        q.files[1].1 = Some(format!("{lib}\ncomponent main = Leaf(1);\n").into_bytes());
+        push("multiple-main-in-included-file", 0, q, true);
+    }
+    // A definition of the named file repeats the name of a definition of an included file.
+    if base_name != "single" {
+        push(
+            "duplicate-definition-of-included",
+            0,
+            with_main(&p, text.replacen("component main", "template Leaf(k) {\n    signal input in;\n    signal output out;\n    out <== in;\n}\n\ncomponent main", 1)),
+            true,
+        );
+    }
+    // Duplicate definition names across two named files, with and without a main component.
+    let other = "pragma circom 2.1.4;\ntemplate Top(m) {\n    signal input in;\n    signal output out;\n    out <== in;\n}\n";
+    let mut q = p.clone();
+    q.files.push(("second.circom".into(), Some(other.as_bytes().to_vec())));
+    q.named.push("second.circom".into());
+    push("duplicate-definition-across-files", 0, q, true);
+    let mut q = with_main(&p, text.replacen("component main = Top(2);\n", "", 1));
+    q.files.push(("second.circom".into(), Some(other.as_bytes().to_vec())));
+    q.named.push("second.circom".into());
+    push("duplicate-definition-across-files-no-main", 0, q.clone(), true);
+    q.named.reverse();
+    push("duplicate-definition-across-files-no-main", 1, q, true);
     // Duplicate definition names: with a main component, and in a library without one.
-    push("duplicate-definition", 0, with_main(&p, format!("{text}\ntemplate Top(m) {{\n    signal input in;\n    signal output out;\n    out <== in;\n}}\n")), true);
+    push(
+        "duplicate-definition",
+        0,
+        with_main(&p, text.replacen("component main", "template Top(m) {\n    signal input in;\n    signal output out;\n    out <== in;\n}\n\ncomponent main", 1)),
+        true,
+    );
     let no_main = text.replacen("component main = Top(2);\n", "", 1);
     push("duplicate-definition-no-main", 0, with_main(&p, format!("{no_main}\ntemplate Top(m) {{\n    signal input in;\n    signal output out;\n    out <== in;\n}}\n")), true);
     out
@@ -176,29 +209,47 @@ pub fn materialise(project: &Project, dir: &Path) {
 }
 
 pub fn run_project(project: &Project, dir: &Path, level: &str) -> BinRun {
+    run_project_seed(project, dir, level, 1)
+}
+
+pub fn run_project_seed(project: &Project, dir: &Path, level: &str, seed: u64) -> BinRun {
     let mut args: Vec<String> = project.named.clone();
     for l in &project.libs {
         args.push("-L".into());
         args.push(l.clone());
     }
     args.extend(["--level".to_string(), level.to_string(), "--verbose".to_string()]);
-    run_bin(&BinOpts { args, cwd: dir, hash_seed: Some(1), timeout: Duration::from_secs(60), sarif_file: None, mem_limit: None })
+    run_bin(&BinOpts { args, cwd: dir, hash_seed: Some(seed), timeout: Duration::from_secs(60), sarif_file: None, mem_limit: None })
 }
 
 pub fn judge(m: &Mutant, dir: &Path, case: &Value) -> Vec<Violation> {
     let mut out = Vec::new();
     materialise(&m.project, dir);
-    let levels: &[&str] = if m.must_error { &["info", "error"] } else { &["info"] };
-    for level in levels {
-        let run = run_project(&m.project, dir, level);
+    // Structural faults involve several files / definitions, whose processing order depends on
+    // the hash seed: they are run under four seeds.
+    let configs: Vec<(&str, u64)> = if m.must_error && !m.kind.starts_with("token") && m.kind != "unclosed-comment" {
+        vec![("info", 1), ("error", 1), ("info", 2), ("info", 3), ("info", 4)]
+    } else if m.must_error {
+        vec![("info", 1), ("error", 1)]
+    } else {
+        vec![("info", 1)]
+    };
+    for (level, seed) in configs {
+        let level = &level;
+        let run = run_project_seed(&m.project, dir, level, seed);
         let mut c = case.clone();
         c["level"] = json!(level);
+        c["hash_seed"] = json!(seed);
         let shown_source = || {
             m.project.files.iter().map(|(n, b)| format!("--- {n}\n{}", b.as_ref().map(|b| String::from_utf8_lossy(b).to_string()).unwrap_or_else(|| "<missing>".into()))).collect::<Vec<_>>().join("\n")
         };
         if run.timed_out || run.killed_by_signal.is_some() || run.panicked() || !matches!(run.exit, Some(0) | Some(1)) {
             out.push(Violation {
-                signature: format!("crash/{}/{}", m.kind, run.panic_signature().unwrap_or_else(|| format!("exit={:?},signal={:?},timeout={}", run.exit, run.killed_by_signal, run.timed_out))),
+                signature: if run.timed_out {
+                    format!("hang/{}", m.kind)
+                } else {
+                    format!("crash/{}/{}", m.kind, run.panic_signature().unwrap_or_else(|| format!("exit={:?},signal={:?}", run.exit, run.killed_by_signal)))
+                },
                 what: format!("the binary crashed, hung or ended with an unexpected status on fault {}@{}", m.kind, m.position),
                 case: c,
                 expected: "exit status 0 or 1 after the summary line".into(),
@@ -286,6 +337,9 @@ pub fn run(run: &Run) {
     run.set_extra("fault_kinds", json!(kinds));
     par_each(&all, |i, m| {
         let case = json!({"kind": "fault", "base": m.base, "fault": m.kind, "position": m.position});
+        if run.too_many_hangs() {
+            return;
+        }
         run.watch(&case);
         let dir = root.join(format!("m{i}"));
         let vs = judge(m, &dir, &case);
